@@ -46,7 +46,7 @@ def collect(F, tr):
     """-> {trait: {"client": {rust: info}, "server": {rust: info}, "aliases": [(alias, target)], "registered": set}}"""
     traits = {}
     for b in F.real_bodies():
-        m = re.match(r"^(\w+)::(\w+)Client::(\w+)$", b.path)
+        m = re.match(r"^([\w:]+?)::(\w+)Client::(\w+)$", b.path)
         if m and b.kind == "AssocFn":
             t = traits.setdefault((m.group(1), m.group(2)), {"client": {}, "server": {}, "aliases": [], "registered": {}})
             info = {"body": b, "inserts": [], "call": None}
@@ -59,7 +59,7 @@ def collect(F, tr):
                 elif re.search(r"client::ClientT::(request|notification)$|client::SubscriptionClientT::subscribe$", c.callee or ""):
                     info["call"] = c
             t["client"][m.group(3)] = info
-        m = re.match(r"^(\w+)::(\w+)Server::into_rpc$", b.path)
+        m = re.match(r"^([\w:]+?)::(\w+)Server::into_rpc$", b.path)
         if m:
             t = traits.setdefault((m.group(1), m.group(2)), {"client": {}, "server": {}, "aliases": [], "registered": {}})
             t["into_rpc"] = b
@@ -298,7 +298,7 @@ def w_rules(ctx):
             want_decl = {m["rust"] for m in sp_t["methods"] + sp_t["subs"]}
             R.check(set(decls) == want_decl, "C17.W1", "%s::%s:all-declarations-present" % (crate, tname), "all %d declarations of %s were analysed" % (len(want_decl), tname), "declarations %s of %s are missing from the facts" % (sorted(want_decl - set(decls)), tname), None)
     R.extra["C17.declarations." + ctx.config] = ndecl
-    floors = {"corpus": 48, "pmcore": 5, "repo-programs": 20}
+    floors = {"corpus": 48, "pmcore": 5, "repo-programs": 34}
     R.floor("C17." + ctx.config, ndecl, floors.get(ctx.config, 1), "#[rpc] declarations analysed in configuration %s" % ctx.config)
 
 
